@@ -52,6 +52,8 @@ func main() {
 			p, _ := props.Get(id)
 			fmt.Printf("%s  %s\n", id, p.Title)
 		}
+	case "scan":
+		os.Exit(cmdScan(os.Args[2:]))
 	case "witness":
 		fs := flag.NewFlagSet("witness", flag.ExitOnError)
 		prop := fs.String("property", "", "property id")
@@ -246,4 +248,58 @@ func cmdSites(args []string) {
 		fmt.Println(l)
 	}
 	fmt.Fprintf(os.Stderr, "%d paths; unsupported: %v\n", len(paths), a.Unsupported)
+}
+
+// scan: run every registered property on the tree (OCCHECK_REPO) in one process, writing nothing,
+// and print the violations that known_findings.json does not list.
+func cmdScan(args []string) int {
+	only := map[string]bool{}
+	for _, a := range args {
+		only[a] = true
+	}
+	p, err := engine.Load(engine.LoadOpts{Dir: repoDir(), AllDeps: false})
+	if err != nil {
+		fmt.Println("LOAD ERROR:", err)
+		return 2
+	}
+	known, _ := engine.LoadKnown(verifDir())
+	total := 0
+	for _, id := range props.IDs() {
+		if len(only) > 0 && !only[id] {
+			continue
+		}
+		pr, _ := props.Get(id)
+		if pr.NeedSSA {
+			continue
+		}
+		_, vs := evaluate(pr, p, nil, "")
+		n := 0
+		for _, v := range vs {
+			listed := false
+			for _, k := range known {
+				if k.Status == "known" && k.Property == id && k.Obligation == v.Obligation && k.Key == v.Key {
+					listed = true
+				}
+			}
+			if listed {
+				continue
+			}
+			n++
+			kind := "falsified"
+			if v.Undecided {
+				kind = "undecided"
+			}
+			msg := v.Msg
+			if len(msg) > 220 {
+				msg = msg[:220] + "…"
+			}
+			fmt.Printf("%s %s %s %s\n    %s\n", id, kind, v.Obligation, v.Pos, msg)
+		}
+		total += n
+	}
+	fmt.Printf("scan: %d unlisted violations\n", total)
+	if total > 0 {
+		return 1
+	}
+	return 0
 }
